@@ -5,6 +5,7 @@ C05 -- neighbour caching is transparent: cached answers always equal recomputed 
 from __future__ import annotations
 
 import base64
+import copy
 import json
 import os
 import pickle
@@ -13,6 +14,8 @@ import re
 import subprocess
 import sys
 import tempfile
+
+import dill
 
 from edgegraph.output import nrpickler
 from edgegraph.structure import Universe, Vertex
@@ -37,7 +40,8 @@ def floors(ctx):
     q = ctx.tier == "quick"
     f = {"evaluations": 20000 if q else 200000, "histories": 200 if q else 2000,
          "hits_after_mutation": 2000 if q else 20000, "toggle_off_mutate_on_episodes": 20,
-         "fresh_interpreter_continuations": 10 if q else 40, "same_process_reloads": 20}
+         "fresh_interpreter_continuations": 10 if q else 40, "same_process_reloads": 20,
+         "same_process_copies_by_other_means": 10}
     for k in ("setv1", "setv2", "v_add_link", "v_rm_link", "l_add_vertex", "l_unlink_from", "link", "unlink", "mke",
               "mkv", "adjdict", "adjmatrix"):
         f["hit_after:" + k] = 1
@@ -148,7 +152,8 @@ class Gen5(gen.Gen):
         return ["cache", self.rng.random() < 0.6]
 
     def g_reload(self, pool):
-        return ["reload"]
+        # the graph continues as a copy of itself: through nrpickler, the stock picklers, or copy.deepcopy
+        return ["reload", self.rng.choice(["nr", "nr", "pickle", "dill", "deepcopy"])]
 
 
 def cache_hits():
@@ -240,8 +245,29 @@ def run_schedule(ops, stats=None):
                 continue
             if k == "reload":
                 try:
-                    pool.rebind(pickle.loads(_dump_pool(pool)))
+                    how = op[1] if len(op) > 1 else "nr"
+                    new = None
+                    if how != "nr":
+                        # the stock picklers / deepcopy may refuse for reasons that are not C05's business (a warm
+                        # cache entry is keyed by the filter callable, and the stock pickler cannot pickle a closure;
+                        # deep graphs recurse): then the graph simply continues through nrpickler
+                        try:
+                            if how == "deepcopy":
+                                new = copy.deepcopy(dict(pool.objs))
+                            elif how == "pickle":
+                                new = pickle.loads(pickle.dumps(dict(pool.objs)))
+                            else:
+                                new = dill.loads(dill.dumps(dict(pool.objs)))
+                        except Exception:  # noqa: BLE001
+                            how = "nr"
+                            if stats is not None:
+                                stats["stock_copy_refused_fell_back_to_nrpickler"] = stats.get("stock_copy_refused_fell_back_to_nrpickler", 0) + 1
+                    if new is None:
+                        new = pickle.loads(_dump_pool(pool))
+                    pool.rebind(new)
                     log.append(("ok", None))
+                    if stats is not None and how != "nr":
+                        stats["same_process_copies_by_other_means"] = stats.get("same_process_copies_by_other_means", 0) + 1
                     if stats is not None:
                         stats["same_process_reloads"] = stats.get("same_process_reloads", 0) + 1
                 except Exception as exc:  # noqa: BLE001
